@@ -11,7 +11,7 @@ RULE = ("to_dot_string (and write_as_dot_string, and export against new_anonymou
         "under names with spaces/punctuation/multi-byte characters/the empty name; constants over 0..4 variables; random functions over 4..8 variables "
         "incl. non-canonical valid diagrams (duplicates, redundant tests, unreachable nodes, permuted order); write_as_dot_string into a scripted "
         "writer (partial writes of 1..200 bytes, interruptions, a failure after a prefix) against to_dot_string of the same program; diagrams with >=100 nodes (3-digit "
-        "indices); names containing a double quote or a newline (text comparison only). relation: the emitted bytes equal the model's bytes exactly. "
+        "indices) and >1,000 nodes (4-digit; thorough: >10,000); names containing a double quote or a newline (text comparison only). relation: the emitted bytes equal the model's bytes exactly. "
         "Independently on every step whose names are quote/newline free: a plain-Python dot reader checks header/entry/terminals/footer, one vertex "
         "per decision node labelled names[var], one filled edge to high and one dotted edge to low (pruned: absent iff the target is 0), evaluates the "
         "read-back graph on all valuations against the raw node array, and checks that the pruned lines are the unpruned lines minus the vertex-0 line "
@@ -89,6 +89,12 @@ def programs(rng, tier):
         b = bdd_from_tt(nv, list(range(nv)), [rng.random() < 0.5 for _ in range(1 << nv)])   # >=100 nodes: 3-digit indices
         pair(b, pick_names(rng, nv, "punct"))
         pair(b, [b"x_%d" % i for i in range(nv)], op="vs_dot")
+    # diagrams with more than 1,000 (thorough: 10,000) nodes: 4- and 5-digit vertex indices
+    for nv in ((13,) if tier == "quick" else (13, 14, 17)):
+        b = big_bdd_from_tt(nv, tt_to_bytes(nv, big_random_tt(rng, nv)))
+        assert len(b) > (1000 if nv < 17 else 10000)
+        pair(b, [b"x_%d" % i for i in range(nv)], op="vs_dot")
+        pair(b, [b"v%d" % i for i in range(nv)])
     # outside the quantifier (recorded only): wrong number of names, invalid name sets, malformed arrays
     b3 = all_functions(3)[100]
     pair(b3, PLAIN[:2])
